@@ -10,7 +10,7 @@ import os
 import sys
 import traceback
 
-from .build import Workspace, AnalysisBroken, REPO, all_configs, config_name, hook_present
+from .build import Workspace, AnalysisBroken, REPO, all_configs, covering_configs, config_name, hook_present
 from .ir import Program
 from .summary import Analyzer
 from .report import Report
@@ -56,9 +56,14 @@ class Ctx:
             self.ws.drop(cfg, s)
 
     def configs(self):
-        """configurations to analyse in this tier: None = shipped build."""
-        if self.tier != "thorough" or not hook_present():
+        """configurations to analyse in this tier: None = shipped build.
+        quick: shipped + a pairwise covering array of the five switches (every pair of switch values
+        occurs together at least once, so every #if/#elif/#else arm guarded by at most two switches is
+        compiled in some configuration); thorough: all 32 combinations."""
+        if not hook_present():
             return [None]
+        if self.tier != "thorough":
+            return [None] + covering_configs()
         return [None] + all_configs()
 
     def fixture(self, name, shape="O0", flags=()):
